@@ -432,6 +432,11 @@ func (p *cparser) primary() CExpr {
 	t := p.next()
 	switch t.kind {
 	case "id":
+		if (t.text == "forall" || t.text == "exists") && p.peek().kind == "id" {
+			// quantifier as an operand: extends as far to the right as possible
+			p.pos--
+			return p.quant()
+		}
 		return &CIdent{t.text}
 	case "int":
 		return &CInt{strings.ReplaceAll(t.text, "_", "")}
